@@ -16,7 +16,7 @@ TRUSTED = [
 ]
 ASSUMPTIONS = []
 PARTIAL = ('the DP theorems carry the hypothesis payload length < 2^56 bytes (beyond about 1.9e17 bytes the capped costs saturate at the "infinite" constant and the statements are provably false of '
-           'the model - a payload no machine holds); QR New is proved end to end (C04Ext: the returned description is Spec.Valid, kanji only if enabled, encodes and decodes back to the payload, never panics); C04Ext2 proves the same for the Micro QR and rMQR copies of New (micro_new_valid / _roundtrip / _no_panic, rmqr_new_valid / _roundtrip / _no_panic); that New leaves the caller\'s slice alone is a property of Go aliasing the functional model cannot express: exercised (C09 histories)')
+           'the model - a payload no machine holds); QR New is proved end to end (C04Ext: the returned description is Spec.Valid, kanji only if enabled, encodes and decodes back to the payload, never panics); C04Ext2 proves the same for the Micro QR and rMQR copies of New (micro_new_valid / _roundtrip / _no_panic, rmqr_new_valid / _roundtrip / _no_panic); that New leaves the caller\'s slice alone is a property of Go aliasing the functional model cannot express: exercised on every New line (the harness hands New a payload embedded in a sentinel-filled array and compares payload and surrounding spare capacity afterwards) and in the C09 histories')
 MANIFEST = {
     'technique': 'Lean 4 invariants of the two mode-selection dynamic programmes (concatenation, non-empty, class validity incl. kanji, termination / no panic of the unbounded back-tracking loop), composed for QR New with calcVersion minimality and the round-trip theorem (New result is valid, encodes, decodes to the payload); exhaustive small-alphabet and random differential runs',
     'text': ('QRV/Props/C04.lean proves for the model of the mode-selection DPs (one model for the three textual copies, parameterised by header costs and mode numbers): the segments concatenate to the '
@@ -107,6 +107,9 @@ def oracle(ctx, lines, out):
         o = out[i]
         if o.startswith('panic') or o in ('crash', 'timeout'):
             add('%s:new-%s' % (sym, o.split()[0]), i, '%s.New %ss on payload %s (level %d, kanji %d)' % (sym, o.split()[0], p.hex()[:60], level, kanji))
+            continue
+        if o.startswith('altered-payload'):
+            add('%s:new-altered-payload' % sym, i, '%s.%s (payload %s, level %d, kanji %d)' % (sym, o[16:], p.hex()[:60], level, kanji))
             continue
         d = symgen.parse_desc(o)
         if d is None:
